@@ -235,7 +235,7 @@ def run(tier, seed, work):
     rep = vlib.Report("C04", tier, seed)
     jobs = build_jobs(tier, seed)
     vlib.run_jobs(jobs, work)
-    rep.absorb(jobs)
+    rep.absorb(jobs, replay_cb=vlib.ops_replay_cb("assembly"))
     rep.extraction = {"rules_fired": jobs[0].rules.summary(), "body_sha256_16": jobs[0].hashes}
     rep.trusted = ["double treated as mathematical real", "CBMC 6.11 + z3 5.1", "extractor rules", "SparseLUSolver::factorizeWithHashing/solveInPlace (assumed contract: solves L U x = b)"]
     rep.assumptions = ["antipodal angles", "shape-bounded", "OpenMP pragmas removed: the parallel branch is checked in its sequential task order (race freedom is C11)"]
